@@ -901,7 +901,9 @@ func checkC12Msg(c c12Msg) (ci caseInfo, err error) {
 	case "hsms":
 		valid = valid && (c.Wait == 0 || c.Wait == 1) && !(c.Wait == 1 && c.Function%2 == 0) && c.Session >= 0 && c.Session <= 65535 && !c.WithVar
 		wantSession = c.Session
-		panicked, pmsg = try(func() { msg = ast.NewHSMSDataMessage(c.Name, c.Stream, c.Function, c.Wait, c.Dir, item, c.Session, sys) })
+		panicked, pmsg = try(func() {
+			msg = ast.NewHSMSDataMessage(c.Name, c.Stream, c.Function, c.Wait, c.Dir, item, c.Session, sys)
+		})
 	case "setsession":
 		// a valid base message, then an arbitrary session id
 		base := ast.NewDataMessage("n", 1, 1, 2, "H->E", item)
